@@ -74,6 +74,14 @@ def _run_shard(task):
     prop, part_name, tier, seed, shard, nshards, known = task
     t0 = time.time()
     try:
+        # a runaway computation in the code under test (e.g. 2**<huge>) must end as MemoryError in this
+        # worker, not as a machine out of memory
+        import resource
+        lim = int(os.environ.get("CPV_MEM_LIMIT_GB", "8")) * (1 << 30)
+        resource.setrlimit(resource.RLIMIT_AS, (lim, lim))
+    except Exception:  # noqa: BLE001
+        pass
+    try:
         mod = _module(prop)
         if getattr(mod, "NEEDS_LIB", True):
             core.load_lib()
